@@ -850,6 +850,8 @@ class Exec:
             return ("indexed", 0, v.n, lambda k, lm=v: _ListMapRow(lm, k), None)
         if isinstance(v, _RangeVal):
             return ("indexed", v.lo, v.hi, lambda k: k, None)
+        if isinstance(v, SymDict) and v.closed and all(p is True for p, _ in v.entries.values()):
+            return ("concrete", list(v.entries.keys()))          # iterating a mapping yields its keys
         raise Unsupported(f"iteration over {type(v).__name__} at {loc_of(fr, node)}")
 
     # ------------------------------------------------------------------ expressions
@@ -966,6 +968,8 @@ class Exec:
             h2 = self.methods.get((base.cls, attr))
             if h2 is not None:
                 return h2(self, base, n, env, fr)
+            if base.cls == "Dataset" and attr in base.fields["vars"].entries and base.fields["vars"].entries[attr][0] is True:
+                return self.load_subscript(base.fields["vars"], (attr,), n, env, fr)       # xarray: ds.name is ds["name"]
             if self.abstract:
                 # the record models only part of the real class: an attribute it does not know is an uninterpreted function of
                 # the object (never a spurious AttributeError)
@@ -1279,6 +1283,8 @@ class Exec:
         return and_vals(res)
 
     def contains(self, container, item, node, fr):
+        if isinstance(container, str) and isinstance(item, str) and container != "<str>" and item != "<str>":
+            return item in container                    # substring test on literal strings
         if isinstance(container, SymDict):
             if not isinstance(item, str):
                 raise Unsupported("membership of a non-literal key")
@@ -1716,6 +1722,13 @@ class Exec:
         h = self.methods.get((type(base).__name__, "__setitem__"))
         if h is not None:
             return h(self, base, node, env, fr)(idx, v)
+        if isinstance(base, Opaque) and self.abstract and base.ghost.get("fresh_alloc"):
+            # an array allocated by this function (np.zeros / empty / full / copy ...): the store is a functional update of its
+            # uninterpreted value; no one else can hold a reference to it
+            from .objmodels import uterm, _uf, F_TRUTH
+            base.term = _uf("setitem", 3)(base.term, uterm(tuple(idx)), uterm(v))
+            base.ghost["truth"] = F_TRUTH(base.term)
+            return
         raise Unsupported(f"store into {type(base).__name__} at {loc_of(fr, node)}")
 
     def frame_store(self, target, node, env, fr):
@@ -1915,6 +1928,12 @@ class Exec:
         if h is None and is_scalar(obj):
             h = self.methods.get(("scalar", "call:" + name))
         if h is not None:
+            if self.abstract and isinstance(obj, (Arr, Small)) and name not in self._MUTATING and not name.startswith("set"):
+                try:
+                    return h(self, obj, args, kwargs, n, env, fr)
+                except (Unsupported, TypeError):
+                    # the model does not cover these arguments: the (non-mutating) method is an uninterpreted function
+                    return self.abs_apply("meth:" + name, [obj] + list(args), kwargs)
             return h(self, obj, args, kwargs, n, env, fr)
         if isinstance(obj, Obj):
             cm = self.class_member(obj.cls, name)
